@@ -243,6 +243,14 @@ def _judge(res: core.Res, s: str, fmt: str, ptypes: bool) -> None:
             res.c('recoverable_errors_observed')
             if 'fz.func' not in system.parse_errors['docstring'] and system.allobjects['fz.func'].docstring:
                 res.v('C08:recoverable-problem-not-reported', f'{fmt} docstring {s[:80]!r}: the parser reports {[getattr(e, "descr", lambda: e)() for e in errs][:2]} but fz.func is not in parse_errors', **w)
+    # the same clause against an independent reader: plain docutils parsing the same text. Only structural messages are
+    # taken (they do not depend on the roles and directives pydoctor adds or removes)
+    if fmt == 'restructuredtext' and system.allobjects['fz.func'].docstring:
+        structural = _plain_docutils_problems(system.allobjects['fz.func'].docstring)
+        if structural:
+            res.c('independent_reader_problems_observed')
+            if 'fz.func' not in system.parse_errors['docstring']:
+                res.v('C08:recoverable-problem-not-reported', f'{fmt} docstring {s[:80]!r}: plain docutils reports {structural[:2]} but fz.func is not in parse_errors', independent_reader=structural[:5], **w)
     # neighbour differential
     ctl = system.allobjects.get('fz.ctl')
     if ctl is not None:
@@ -255,6 +263,34 @@ def _judge(res: core.Res, s: str, fmt: str, ptypes: bool) -> None:
         res.c('control_comparisons')
         if repr((outs, None if err is None else err[0])) != _ctl_cache[key]:
             res.v('C08:neighbour-affected', f'the control function renders differently next to docstrings {s[:80]!r} ({fmt})', got=outs, **w)
+
+
+STRUCTURAL = ('Title underline too short', 'Duplicate implicit target name', 'Literal block expected; none found', 'Unexpected indentation',
+              'ends without a blank line', 'start-string without end-string', 'Possible title underline, too short for the title',
+              'Possible incomplete section title', 'Title overline too short', 'Missing matching underline', 'Title overline & underline mismatch',
+              'Inconsistent literal block quoting', 'Malformed table', 'Unexpected section title', 'Title level inconsistent')
+
+
+def _plain_docutils_problems(text: str) -> List[str]:
+    import docutils.frontend
+    import docutils.parsers.rst
+    import docutils.utils
+    found: List[str] = []
+    try:
+        settings = docutils.frontend.get_default_settings(docutils.parsers.rst.Parser)
+        settings.report_level = 5
+        settings.halt_level = 5
+        settings.warning_stream = False
+        settings.file_insertion_enabled = False
+        settings.raw_enabled = False
+        doc = docutils.utils.new_document('<docstring>', settings)
+        doc.reporter.attach_observer(lambda msg: found.append(msg.astext()))
+        docutils.parsers.rst.Parser().parse(text, doc)
+    except core.CpuTimeout:
+        raise
+    except BaseException:  # noqa: BLE001 -- the reference reader gave up: nothing to compare
+        return []
+    return [m for m in found if any(k in m for k in STRUCTURAL)]
 
 
 def run_case(case: Dict[str, Any]) -> core.Res:
